@@ -18,6 +18,7 @@ import numpy as np
 
 from checks import c07
 from harness import alpha, compare, core, gamma, lattice, shims, tlc, util
+from harness import spell
 
 INV = ["SpecNonEmpty", "ByLevelRefines", "BoxesWritten", "ChunkingKeepsAll", "Emit"]
 SENTINEL = 3.3e299
@@ -151,7 +152,7 @@ def run_scenario(chk, sc, cfgseed, axes, serial, fields, wide=False):
     out = os.path.join(os.path.dirname(d), "slice2d")
     try:
         with shims.pool_shim(shims.Scheduler(default="random", rng=random.Random(cfgseed))), shims.poison([SENTINEL, -SENTINEL, float("nan")][cfgseed % 3]), core.quiet():
-            m = Mandoline(d, fields=list(fields), limit_level=sc["lim"], serial=serial, verbose=0)
+            m = Mandoline(spell.of(d, cfgseed)[0], fields=list(fields), limit_level=sc["lim"], serial=serial, verbose=0)
             if cfgseed % 3 == 0:
                 # an earlier slice on the same object (other normal, returned in memory)
                 m.slice(normal=axes[1], fformat="return")
@@ -219,6 +220,14 @@ def big_scenario(chk, seed):
 
 
 def run(chk, replay):
+    _run(chk, replay)
+    if not replay:
+        # the working directory changes between slices of plotfiles typed under a relative name (PoolEnv.tla)
+        from harness import poolenv
+        poolenv.tool_phase(chk, "mandoline-plotfile")
+
+
+def _run(chk, replay):
     chk.rule = ("scenarios of SlicePlt.tla emitted by TLC (mesh x every in-domain lattice position x limit; a seed-selected residue "
                 "class), replayed with fformat='plotfile' for every axis assignment, serial/parallel, several field lists; plus one "
                 "configuration above the 1 MB splitting threshold; signature = (levels, limit, per-level slice_box case classes, axes, "
